@@ -131,6 +131,15 @@ def r3(R, repo):
   R.check("params_with_opt = params['params'] if OVERWRITE_WITH_GRADIENT in params else params" in astu.src(cr.node) and 'opt_state = tx.init(params_with_opt)' in astu.src(cr.node) and 'params=params' in astu.src(cr.node),
           key_of(cr, 'tx.init on the optimised sub-tree, full params stored'), cr, 'TrainState.create must initialise the optimizer on the sub-tree that apply_gradients optimises and store the full params')
   src = astu.src(ag.node)
+  # apply_gradients returns a *new* state: it may not write into the containers of the old one
+  for st_ in astu.body_walk(ag.node):
+    if isinstance(st_, (ast.Assign, ast.AugAssign)):
+      for t_ in (st_.targets if isinstance(st_, ast.Assign) else [st_.target]):
+        if isinstance(t_, ast.Subscript) and isinstance(t_.value, ast.Name):
+          ds_ = [d_[0] for d_ in flow.defs(ag, t_.value.id) if isinstance(d_[0], ast.AST)]
+          if ds_ and any(isinstance(d_, ast.Attribute) and isinstance(d_.value, ast.Name) and d_.value.id == 'self' for d_ in ds_):
+            R.fail(key_of(ag, 'the old state is left intact'), (ag, st_), '`%s` writes into `%s`, which is the old state\'s own container (`%s = %s`): the TrainState passed in is modified in place, so the caller\'s previous state (and anything sharing its params dict) changes under its feet' % (
+                astu.short(st_), t_.value.id, t_.value.id, astu.src(ds_[0])))
   # the new params of the overwrite-with-gradient case: a dict whose overwrite collection is the *gradient*, not the old value
   owg_old = None
   for d_ in [n_ for n_ in ast.walk(ag.node) if isinstance(n_, ast.Dict)]:
@@ -282,7 +291,7 @@ def r7(R, repo):
     R.unsure(key_m2, (wu, m2[0].stmt), 'Welford.update left the fragment the symbolic evaluator understands: %s' % e_)
   key_avg = key_of(au, 'total += sum(values); count += number of values')
   try:
-    exa = ratpoly.SymExec(lambda x: {'values.sum()': 'sum_b', 'jnp.sum(values)': 'sum_b', 'values.size': 'n_b', 'len(values)': 'n_b'}.get(astu.src(x)),
+    exa = ratpoly.SymExec(lambda x: {'values.sum()': 'sum_b', 'jnp.sum(values)': 'sum_b', 'values.size': 'n_b', 'len(values)': 'n_b', 'values.mean()': 'mean_b', 'jnp.mean(values)': 'mean_b'}.get(astu.src(x)),
                           lambda x: {'self.total.value': 'total', 'self.total': 'total', 'self.count.value': 'n', 'self.count': 'n'}.get(astu.src(x)), choose_ifexp=chooser(au))
     enva = exa.run([s_ for s_ in astu.strip_docstring(au.node.body) if not (isinstance(s_, (ast.Assign, ast.AnnAssign)) and 'kwargs[' in astu.src(s_))])
     A = ratpoly.Rat.atom
